@@ -80,10 +80,10 @@ def plain(shape, t, s):
     return False
 
 
-def check_finaliser(repo, rep, facts, depth):
+def check_finaliser(repo, rep, facts, depth, extra_kinds=()):
     mod = repo.module(UT)
     fi = mod.func('convert_output_data')
-    uni = shapes.universe(facts, depth)
+    uni = shapes.universe(facts, depth, extra_kinds=extra_kinds)
     n = 0
     for t, s in OPTS:
         it = shapes.Interp(repo, fi, facts, optdict(t, s))
@@ -93,6 +93,14 @@ def check_finaliser(repo, rep, facts, depth):
             try:
                 out = it.convert(sh)
             except shapes.Error as e:
+                if e.role == 'constructor':
+                    rep.ob('R10a', 'finaliser/constructor[%s]/%s' % (
+                        e.outer, tag), False,
+                        'finalising a value of shape %s under %s fails: '
+                        '%s (TypeError inside #finalize although the '
+                        'evaluation succeeded)' % (sh, tag, e.detail),
+                        loc=mod.loc(fi.node), construct='%s %s' % (sh, tag))
+                    continue
                 inner = e.inner.kind if isinstance(e.inner, Shape) else (
                     offending_kind(facts, sh, e.role, t, s))
                 outk = e.outer
@@ -310,7 +318,14 @@ def check_value_universe(repo, rep, uni, facts):
     n = 0
     unknown = []
     kinds_seen = set()
-    for fi in uni.reg.payloads():
+    funcs = list(uni.reg.payloads())
+    have = {f.key for f in funcs}
+    for f, role in uni.evaluation_time():
+        if f.module.name.startswith('yaql.standard_library') and \
+                f.key not in have and role in ('helper', 'nested'):
+            funcs.append(f)
+    extra = set()
+    for fi in funcs:
         gen = any(isinstance(x, (ast.Yield, ast.YieldFrom))
                   for x in model.walk_shallow(fi.node))
         if gen:
@@ -323,6 +338,20 @@ def check_value_universe(repo, rep, uni, facts):
             n += 1
             if isinstance(v, ast.Call):
                 d = repo.resolve(fi.module, v.func, model.scope_locals(fi))
+                tgt = repo.lookup(d) if d else None
+                if isinstance(tgt, tuple) and tgt[0] == 'const' and \
+                        isinstance(tgt[2], ast.Call) and repo.resolve(
+                            tgt[1], tgt[2].func) in (
+                            'collections.namedtuple', 'typing.NamedTuple'):
+                    kinds_seen.add('namedtuple')
+                    extra.add('namedtuple')
+                    continue
+                if isinstance(tgt, model.ClassInfo) and any(
+                        repo.is_subclass(tgt, b) for b in (
+                            'builtins.tuple', 'typing.NamedTuple')):
+                    kinds_seen.add('namedtuple')
+                    extra.add('namedtuple')
+                    continue
                 if d in RETURN_KINDS:
                     kinds_seen.add(RETURN_KINDS[d])
                 elif d is None and isinstance(v.func, ast.Attribute) and \
@@ -355,6 +384,7 @@ def check_value_universe(repo, rep, uni, facts):
            'return kinds %s are not in the shape universe' % sorted(miss))
     rep.extra_cov['return_kinds_seen'] = sorted(kinds_seen)
     rep.floor('payload return expressions scanned', n, 250)
+    return extra
 
 
 def run(repo, rep):
@@ -382,10 +412,12 @@ def run(repo, rep):
         'compared with the kind the property demands.')
     facts = shapes.Facts(repo)
     depth = 3 if rep.tier == 'thorough' else 2
-    n, nshapes = check_finaliser(repo, rep, facts, depth)
+    uni = unimod.Universe(repo)
+    # kinds the library can return that are not in the base universe
+    # (e.g. a namedtuple) are added to it
+    extra = check_value_universe(repo, rep, uni, facts)
+    n, nshapes = check_finaliser(repo, rep, facts, depth, extra)
     nin = check_input(repo, rep, facts, 2)
     check_always_finalised(repo, rep)
-    uni = unimod.Universe(repo)
-    check_value_universe(repo, rep, uni, facts)
     rep.count(shapes=nshapes, option_combinations=len(OPTS),
               finaliser_obligations=n, input_obligations=nin, depth=depth)
